@@ -753,7 +753,7 @@ class Interp:
         concrete_items = None
         if is_for and isinstance(iterable, (list, tuple)) and len(iterable) <= 64:
             concrete_items = list(iterable)           # a known sequence (its elements may be symbolic)
-        elif is_for and isinstance(iterable, range) and len(iterable) <= 256:
+        elif is_for and isinstance(iterable, range) and len(iterable) <= 4096:
             concrete_items = list(iterable)
         elif is_for and isinstance(iterable, str) and not isinstance(iterable, M._StringLetters) and len(iterable) <= 256:
             concrete_items = list(iterable)
